@@ -219,6 +219,20 @@ NOTES = {
     "C16-h": ("throw_err returns early when the slot handed in already points to an error with the same text: the slot keeps pointing at another thread's object", "MISSED at first; added failing calls whose error slot still holds the pointer another thread obtained (step x), with equal and different texts - now caught"),
     "C17-h": ("suffix table moved into a thread-local shared by all SuffixDict values of a thread", "first run: only the regenerated inventory broke (no-failing-input-found); added the public name emitter with two caller-owned dictionaries used alternately on one thread (operation DD) - now caught with an input"),
     "C18-h": ("EDNS option list walked again after every additional record that follows the OPT record", "first run: no failing input (no packet had options and records after them); added packets with half their bytes in the options of an OPT record that comes first or in the middle and half in records after it - now caught (step count differs from the model's and exceeds the bound)"),
+    "C01-i": ("pointer read through a slice bounded by the barrier: a pointer whose first byte is the last byte before the segment that referred to it panics", "caught at once (pointer layouts around the start of the referring segment)"),
+    "C02-i": ("'reference to an empty label' tested on the first pointer of a name only: a later hop may land on a root byte", "caught at once (chains through bytes never validated as names)"),
+    "C03-i": ("name() lower-cases with Unicode rules when the owner name is valid UTF-8", "MISSED at first (labels were ASCII or random bytes); added names with UTF-8 letters that have a lower-case form, lone high bytes and 0xff - now caught"),
+    "C05-i": ("decompression asserts that a pointer target is at or after offset 12: names written through the header panic", "caught at once (header-pointer packets)"),
+    "C06-i": ("dictionary hit decided by equal length and equal 32-bit hash; the remembered bytes are never compared", "MISSED: no generated packet holds two names whose case-folded FNV-1a hashes collide (one pair in 2^32). A regenerated inventory was added (DictCompare: the one comparison of SuffixDict::insert, its arguments and its guard, and the dictionary's other helpers), which the model's sd_find and the invariant dict_inv of C06_content rest on - now reported, without a failing input"),
+    "C08-i": ("delete() takes a question of QTYPE 41 for the OPT record when the packet has one: the EDNS summary is reset while the OPT record stays (written by the agent given C04's text)", "caught at once by C08 and C09 (the object reports no EDNS, its bytes hold an OPT record); outside C04, which speaks of accepted packets - the question is gone"),
+    "C09-i": ("decompression treats AFSDB and RT data as '2 bytes + a name'", "MISSED at first (no record of those types); added records of 32 types the library gives no meaning to, with data that looks like a name, like 2 bytes + a name, like a name followed by junk, in every section of the hand-built packets all history checks draw from - now caught"),
+    "C10-i": ("set_raw_name no longer recomputes the cursor after its in-place decompression: a growth refused at 65535 bytes leaves the cursor with the offsets of the compressed packet", "MISSED at first; added packets that decompress to 65000..65535 bytes, a refused owner-name change through a cursor, then reads, a deletion and a second change through the same cursor - now caught (a second agent, given C08's text, made the same change; kept once)"),
+    "C11-i": ("single-name data test written as the range NS..=CNAME: MD and MF data are read as names by the decompression a deletion triggers", "MISSED at first; deleting walks now include records of types without meaning whose data looks like a name - now caught"),
+    "C12-i": ("set_response(true) also sets TC on a query larger than max(512, advertised payload)", "MISSED at first (every packet of the flag sweep had 29 or 40 bytes); added packets of exact sizes around 512, the advertised payload, 4096, 8192 and 64 KiB, with and without OPT - now caught"),
+    "C13-i": ("white space inside the parentheses of SOA skipped with is_ascii_whitespace: a vertical tab is refused", "MISSED at first; CR, VT and FF added to the white space generated inside SOA parentheses - now caught"),
+    "C14-i": ("length test rearranged into 253 - suffix.len(): with a default zone of 254 or 255 bytes it underflows (panic in debug, over-long name accepted in release)", "MISSED at first (one short default zone); added default zones of 100..255 wire bytes - now caught"),
+    "C16-i": ("per-thread error slot drawn from a 16-bit counter of threads that ever failed", "the quick schedules stopped at 4097 sequential threads: the search that follows a broken obligation found HS,65536; 65537 sequential threads are now part of the quick tier - caught with an input"),
+    "C17-i": ("recompute() skips decompression when its packet has the address and length of the buffer the last direct decompression returned", "first run: only the regenerated inventory broke (no-failing-input-found); added parse + recompute (operation PR) after a decompression whose result has exactly that length - now caught with an input (the allocator hands the freed block back)"),
     "C17-c": ("compress() output built in a thread-local scratch buffer that is not cleared above 64 KiB of capacity", "first run: only the regenerated inventory obligation broke; added small operations right after 33 .. 65 KB ones - now caught with an input"),
 }
 
